@@ -51,6 +51,19 @@ enum Val {
     Text(String),
     Int(i64),
     Bool(bool),
+    /// a typed `Level` that went through `Value::to_owned()` (no longer downcastable: formatted, then parsed)
+    OwnedTyped(Level),
+    /// a `Display`-only value with the given text (`Value::capture_display` of a non-Level type)
+    Display(String),
+    /// a string value that went through `to_owned()` (not a borrowed str any more)
+    OwnedText(String),
+}
+
+struct Shown(String);
+impl std::fmt::Display for Shown {
+    fn fmt(&self, f: &mut std::fmt::Formatter) -> std::fmt::Result {
+        f.write_str(&self.0)
+    }
 }
 
 fn props(s: &Sexp) -> Option<Vec<(String, Val)>> {
@@ -74,6 +87,9 @@ fn props(s: &Sexp) -> Option<Vec<(String, Val)>> {
             "text" => Val::Text(a[0].as_string()?),
             "int" => Val::Int(a[0].as_i64()?),
             "bool" => Val::Bool(a[0].as_bool()?),
+            "otyped" => Val::OwnedTyped(level(&a[0])?),
+            "display" => Val::Display(a[0].as_string()?),
+            "otext" => Val::OwnedText(a[0].as_string()?),
             _ => return None,
         };
         out.push((k, v));
@@ -82,9 +98,20 @@ fn props(s: &Sexp) -> Option<Vec<(String, Val)>> {
 }
 
 fn with_event<R>(mdl: &str, props: &[(String, Val)], f: impl FnOnce(emit::Event<&[(&str, emit::Value)]>) -> R) -> R {
+    // owned / display values need storage that outlives the event
+    let shown: Vec<Option<Shown>> = props.iter().map(|(_, v)| match v { Val::Display(s) => Some(Shown(s.clone())), _ => None }).collect();
+    let owned: Vec<Option<emit::value::OwnedValue>> = props
+        .iter()
+        .map(|(_, v)| match v {
+            Val::OwnedTyped(l) => Some(emit::Value::capture_display(l).to_owned()),
+            Val::OwnedText(s) => Some(emit::Value::from(s.as_str()).to_owned()),
+            _ => None,
+        })
+        .collect();
     let vals: Vec<(&str, emit::Value)> = props
         .iter()
-        .map(|(k, v)| {
+        .enumerate()
+        .map(|(i, (k, v))| {
             (
                 k.as_str(),
                 match v {
@@ -92,6 +119,8 @@ fn with_event<R>(mdl: &str, props: &[(String, Val)], f: impl FnOnce(emit::Event<
                     Val::Text(s) => emit::Value::from(s.as_str()),
                     Val::Int(i) => emit::Value::from(*i),
                     Val::Bool(b) => emit::Value::from(*b),
+                    Val::OwnedTyped(_) | Val::OwnedText(_) => owned[i].as_ref().unwrap().by_ref(),
+                    Val::Display(_) => emit::Value::capture_display(shown[i].as_ref().unwrap()),
                 },
             )
         })
@@ -241,7 +270,12 @@ fn gen_props(rng: &mut Rng) -> Sexp {
         let v = match rng.below(8) {
             0 | 1 | 2 => Sexp::tagged("typed", vec![Sexp::atom(*rng.pick(&LEVELS))]),
             3 | 4 | 5 => Sexp::tagged("text", vec![Sexp::str(&gen_level_text(rng))]),
-            6 => Sexp::tagged("int", vec![Sexp::num(rng.range(0, 40) as i64 - 5)]),
+            6 => match rng.below(4) {
+                0 => Sexp::tagged("int", vec![Sexp::num(rng.range(0, 40) as i64 - 5)]),
+                1 => Sexp::tagged("otyped", vec![Sexp::atom(*rng.pick(&LEVELS))]),
+                2 => Sexp::tagged("display", vec![Sexp::str(&gen_level_text(rng))]),
+                _ => Sexp::tagged("otext", vec![Sexp::str(&gen_level_text(rng))]),
+            },
             _ => Sexp::tagged("bool", vec![Sexp::bool(rng.bool())]),
         };
         items.push(Sexp::list(vec![Sexp::str(key), v]));
